@@ -25,6 +25,7 @@ import (
 type schedVec struct {
 	Gates []int   `json:"gates"` // LogValuer gates in the record of process i+1
 	Big   []int   `json:"big"`   // 1: the record of process i+1 has a text line longer than 16 KiB
+	Ctx   []int   `json:"ctx"`   // the context of the call of process i+1: 0 never done, 2 cancelled before the call, 5 cancelled while it waits for the mutex
 	Fault []int   `json:"fault"` // what the writer does with the line of process i+1 (faultNone, faultErr, ...)
 	Sched [][]any `json:"sched"` // [p, kind, status]; kind 1 = released by the controller, 2 = woke up on the free mutex
 	Order []int   `json:"order"` // predicted order of the records' lines
@@ -52,6 +53,13 @@ func (v *schedVec) steps() ([]schedStep, error) {
 	return out, nil
 }
 
+func (v *schedVec) ctxKind(p int) int {
+	if p-1 < len(v.Ctx) {
+		return v.Ctx[p-1]
+	}
+	return 0
+}
+
 func (v *schedVec) fault(p int) int {
 	if p-1 < len(v.Fault) {
 		return v.Fault[p-1]
@@ -70,6 +78,9 @@ func schedKey(steps []schedStep) string {
 		c := s.want[:1]
 		if s.kind == 2 {
 			c = strings.ToUpper(c)
+		}
+		if s.kind == 3 {
+			c = "x" // its context is cancelled
 		}
 		fmt.Fprintf(&b, "%d%s", s.p, c)
 	}
@@ -250,7 +261,7 @@ func runSchedule(res *vh.Result, st *schedStats, raw []byte, v *schedVec, steps 
 	}}
 	tree := buildSchedTree(root, salt, lc)
 	ref := newReference(opts)
-	key := fmt.Sprintf("sched gates=%v big=%v faults=%v handlers=%s schedule=[%s]", v.Gates, v.Big, v.Fault, cfg, schedKey(steps))
+	key := fmt.Sprintf("sched gates=%v big=%v faults=%v ctx=%v handlers=%s schedule=[%s]", v.Gates, v.Big, v.Fault, v.Ctx, cfg, schedKey(steps))
 	detail := func(extra map[string]any) map[string]any {
 		d := map[string]any{"stage": "S", "schedule": json.RawMessage(raw), "config": cfg, "salt": salt, "opts": variantName(variant)}
 		for k, x := range extra {
@@ -266,6 +277,7 @@ func runSchedule(res *vh.Result, st *schedStats, raw []byte, v *schedVec, steps 
 	wantErr := make([]bool, np+1)
 	herr := make([]error, np+1)
 	hpanic := make([]any, np+1)
+	cancels := make([]func(), np+1)
 	retAt := make([]int64, np+1)
 	gids := make([]uint64, np+1)
 	levels := []int{8, 0, 7, 9}
@@ -326,10 +338,31 @@ func runSchedule(res *vh.Result, st *schedStats, raw []byte, v *schedVec, steps 
 		h := tree.hs[hname[p]]
 		rec := recs[p]
 		w.faults[names[p]] = v.fault(p)
+		// The context of the call (environment): never done (Background, or a
+		// live cancellable one), already cancelled / expired, or cancelled by
+		// the controller while the call waits for the mutex (schedule kind 3).
+		pctx, cancel := ctx, func() {}
+		switch v.ctxKind(p) {
+		case 0:
+			if p%2 == 0 {
+				pctx, cancel = context.WithCancel(ctx)
+			}
+		case 2:
+			if p%2 == 0 {
+				pctx, cancel = context.WithDeadline(ctx, time.Unix(1, 0))
+			} else {
+				pctx, cancel = context.WithCancel(ctx)
+				cancel()
+			}
+		case 5:
+			pctx, cancel = context.WithCancel(ctx)
+		}
+		cancels[p] = cancel
+		defer cancel()
 		s.Go(names[p], func() {
 			gids[p] = curGID()
 			// Panics are recovered per call, as a server does per request.
-			hpanic[p], _ = vh.Try(func() { herr[p] = h.Handle(ctx, rec) })
+			hpanic[p], _ = vh.Try(func() { herr[p] = h.Handle(pctx, rec) })
 			retAt[p] = w.clock.Add(1)
 		})
 	}
@@ -349,6 +382,19 @@ func runSchedule(res *vh.Result, st *schedStats, raw []byte, v *schedVec, steps 
 	for i, stp := range steps {
 		st.steps++
 		name := names[stp.p]
+		if stp.kind == 3 {
+			// The environment cancels the context of a call that waits for the
+			// mutex: nothing may happen (a record is not dropped for that).
+			cancels[stp.p]()
+			if diverged == "" {
+				if got := describe(s.Poll(name, 5*time.Millisecond)); got != "blocked" {
+					st.gateDivergence++
+					diverged = fmt.Sprintf("step %d: %s is %q after its context was cancelled, model says it keeps waiting", i+1, name, got)
+					delete(blocked, stp.p)
+				}
+			}
+			continue
+		}
 		if diverged != "" {
 			// API-level fallback: keep the order of releases, ignore statuses.
 			if stp.kind == 1 {
